@@ -358,6 +358,7 @@ class AshProtocol(asyncio.Protocol):
         self._pending_data_frames: dict[int, asyncio.Future] = {}
         self._send_data_frame_semaphore = asyncio.Semaphore(TX_K)
         self._tx_seq: int = 0
+        self._session: int = 0
         self._rx_seq: int = 0
         self._t_rx_ack = T_RX_ACK_INIT
 
@@ -556,6 +557,7 @@ class AshProtocol(asyncio.Protocol):
 
         self._tx_seq = 0
         self._rx_seq = 0
+        self._session += 1
         self._change_ack_timeout(T_RX_ACK_INIT)
 
         # Frames sent before the reset belong to the previous session: the NCP will
@@ -621,6 +623,7 @@ class AshProtocol(asyncio.Protocol):
 
         async with self._send_data_frame_semaphore:
             frm_num = None
+            session = None
 
             try:
                 for attempt in range(ACK_TIMEOUTS):
@@ -635,6 +638,12 @@ class AshProtocol(asyncio.Protocol):
                     if frm_num is None:
                         frm_num = self._tx_seq
                         self._tx_seq = (self._tx_seq + 1) % 8
+                        session = self._session
+                    elif session != self._session:
+                        # The NCP has restarted since this frame was first sent (its
+                        # NAK or timeout raced the RSTACK): it belongs to the previous
+                        # session and must not be retransmitted into the new one
+                        raise NcpFailure(t.NcpResetCode.RESET_SOFTWARE)
 
                     # Use a fresh ACK number on every retry
                     frame = frame.replace(
